@@ -46,8 +46,10 @@ def make_rows(rng, tps, n, on_grid_frac=0.5):
 
 
 def write_csv(path, rows):
+    cols = HEADER.strip().split(",")
+    cols += [k for k in (rows[0] if rows else {}) if k not in cols]        # annotation columns a trace may carry
     with open(path, "w", newline="") as f:
-        w = csv.DictWriter(f, fieldnames=HEADER.strip().split(","))
+        w = csv.DictWriter(f, fieldnames=cols)
         w.writeheader()
         for r in rows:
             w.writerow(r)
@@ -77,6 +79,9 @@ def viol(ctx, clause, what, case):
 def check_snap(ctx, drv, rng, td):
     tps = rng.choice(TPS)
     rows, arrivals = make_rows(rng, tps, rng.randint(1, 12))
+    if len(rows) % 5 == 0:
+        annotate(random.Random(len(rows)), rows)
+        ctx.sit("traces_with_extra_columns")
     fin, fout, fout2 = (os.path.join(td, x) for x in ("in.csv", "out.csv", "out2.csv"))
     write_csv(fin, rows)
     run_tool(["tools", "snap", fin, fout, str(tps), "-f"])
@@ -108,9 +113,19 @@ def check_snap(ctx, drv, rng, td):
         ctx.coverage["samples"].append({"tool": "snap", "tps": tps, "in": arrivals[:6], "out": [r["arrival_seconds"] for r in out if r["arrival_seconds"]][:6]})
 
 
+def annotate(rng, rows):
+    """a trace with two extra columns (the reader ignores what it does not know; the tools must carry them through)"""
+    for k, r in enumerate(rows):
+        r["owner"] = rng.choice(["ana", "bo", ""])
+        r["note"] = f"n{k}"
+
+
 def check_jitter(ctx, drv, rng, td):
     tps = rng.choice([1, 10, 100, 1000])
     rows, arrivals = make_rows(rng, tps, rng.randint(1, 12))
+    if tps == 10:
+        annotate(random.Random(len(rows)), rows)
+        ctx.sit("traces_with_extra_columns")
     delta = rng.choice([0.0, 0.0, 0.001, 0.5, 1.0 / tps, 3.0, 100.0])
     seed = rng.randint(0, 10 ** 6)
     fin, f1, f2, f3 = (os.path.join(td, x) for x in ("in.csv", "j1.csv", "j2.csv", "j3.csv"))
